@@ -1082,6 +1082,11 @@ fn gen_install(rng: &mut Rng, info: &FontInfo, prop: &str) -> Option<(FontInfo, 
             surgeries.push(Surgery::InstallMorx {
                 glyphs,
                 variant: rng.below(1 << 20),
+                hazard: if rng.pct(12) {
+                    Some(rng.below(u64::from(crate::morx_build::HAZARD_COUNT)) as u32)
+                } else {
+                    None
+                },
             });
             chars.sort_unstable();
             focus = Some(chars);
